@@ -87,16 +87,33 @@ Theorem C03_never_blocks_when_others_cover : forall ops m e ext o mi,
   blocked (run init ops) (Call m e ext o) = false.
 Proof. exact never_blocks_when_others_cover. Qed.
 
+(* ---- pledge is released when an early termination is PROCESSED, not when it is queued ---- *)
+Theorem C03_queued_termination_keeps_pledge : forall m l m',
+  move_early m l = Ok m' ->
+  ip m' = ip m /\ locked m' = locked m /\
+  zsum (sectors m') + zsum (awaiting m') = zsum (sectors m) + zsum (awaiting m).
+Proof. exact queued_termination_keeps_pledge. Qed.
+
+Theorem C03_processed_termination_releases_pledge : forall m e pr t m' d,
+  minv m -> tx_process_early m e pr t = Ok (m', d) ->
+  ip m' = ip m - (zsum (awaiting m) - zsum (awaiting m')) /\ sectors m' = sectors m /\
+  d = (ip m' - ip m) + (locked m' - locked m).
+Proof. exact processed_termination_releases_pledge. Qed.
+
 (* ---- roll-back ---- *)
 Theorem C03_rejected_call_changes_nothing : forall st m e ext o st' c s,
   call st m e ext o = (st', c, s) -> c <> 0 -> st' = st.
 Proof. exact rejected_call_changes_nothing. Qed.
 
-Theorem C03_failed_cron_only_drops_claim : forall st m e ext o st' c s,
-  cron_call st m e ext o = (st', c, s) -> c <> 0 ->
-  total st' = total st /\
-  forall k, miners st' !! k =
-    if decide (k = m) then option_map (fun mi => set_claim mi false) (miners st !! m) else miners st !! k.
+(* cron: every callback of a tick runs against the claims as they were before the tick; a failed callback is
+   rolled back (previous theorem); afterwards the power actor clears the claim bit of the failed miners and
+   changes nothing else *)
+Theorem C03_failed_cron_only_drops_claim : forall failed ms k,
+  drop_claims ms failed !! k =
+  match ms !! k with
+  | Some mi => Some (if bool_decide (k ∈ failed) then set_claim mi false else mi)
+  | None => None
+  end.
 Proof. exact failed_cron_only_drops_claim. Qed.
 
 (* ---- non-vacuity: two miners; onboarding, reward, pre-commit expiry, termination, expiry ---- *)
